@@ -646,6 +646,10 @@ type phase struct {
 var coreLetters = []string{"H_NEW_ES_NOW", "H_NEW_ES_HOLD", "H_NEW_HOLD", "H_NEW_NOW", "H_CLOSED", "H_TRAILERS_ES", "H_HALFCLOSED", "H_NEW_NOEH", "CONT_EH",
 	"H_NEW_UPPER", "H_NEW_CONNHDR", "D_OPEN", "D_OPEN_ES", "D_HALFCLOSED", "D_CLOSED", "R_OPEN", "R_HALFCLOSED", "R_CLOSED", "W_OPEN", "W_CLOSED", "P_SELF", "S_ACK", "GOAWAY", "RELEASE"}
 
+// slotLetters: the letters that occupy and free handler slots, for the deep phase about the concurrency limit (requests
+// whose handlers keep running, resets of their streams, handler returns).
+var slotLetters = []string{"H_NEW_HOLD", "H_NEW_ES_HOLD", "R_OPEN", "R_HALFCLOSED", "RELEASE"}
+
 func plan() []phase {
 	afterSettings := func(n int) config {
 		return config{name: fmt.Sprintf("max%d", n), maxStreams: n, prefix: []string{"S_EMPTY"}}
@@ -657,6 +661,18 @@ func plan() []phase {
 		for _, l := range coreLetters {
 			if _, ok := alphaIdx[l]; !ok {
 				panic("unknown core letter " + l)
+			}
+			c.only[l] = true
+		}
+		return c
+	}
+	slots := func(n int) config {
+		c := afterSettings(n)
+		c.name += "/slots"
+		c.only = map[string]bool{}
+		for _, l := range slotLetters {
+			if _, ok := alphaIdx[l]; !ok {
+				panic("unknown slot letter " + l)
 			}
 			c.only[l] = true
 		}
@@ -680,6 +696,8 @@ func plan() []phase {
 			{cfg: afterSettings(1), depth: 4},
 			{cfg: core(2), depth: 6, prune: true},
 			{cfg: core(1), depth: 7, prune: true},
+			{cfg: slots(2), depth: 10, prune: true},
+			{cfg: slots(3), depth: 11, prune: true},
 		}
 	}
 	return []phase{
@@ -688,6 +706,7 @@ func plan() []phase {
 		{cfg: afterSettings(1), depth: 3},
 		{cfg: core(2), depth: 5, prune: true},
 		{cfg: core(1), depth: 5, prune: true},
+		{cfg: slots(2), depth: 8, prune: true},
 	}
 }
 
